@@ -95,6 +95,7 @@ class Env:
         self.listen_order = []
         self.probe_errors = []
         self.shared = {}
+        self.shared_args = {}         # share key -> (the one container object, its content when the caller made it)
         self.api_exc = []             # [api, waiter id or component, exception class, callback kind] of calls that raised
         self.silent = []              # waiters whose invocation the harness cannot observe (callback None, sink without _all_dependencies_met)
         self.registered = set()       # names for which a register call has been issued (harness bookkeeping, for hasComponent)
@@ -172,6 +173,30 @@ class Env:
             if n != "core" and tw.components.get(n) is self.core.components[n]: out.append("component %r of the main core is registered on the other core" % n)
         if "zz_twin_never" in self.core.components: out.append("the other core's registration shows on the main core")
         return out
+
+    # ---- argument objects: possibly one object handed to several calls; the core must not change or keep the caller's object
+    def container(self, ct, names, share=None):
+        if share is not None and share in self.shared_args:
+            return self.shared_args[share][0]
+        import collections
+        if ct == "none": arg = None
+        elif ct == "str": arg = names[0]
+        elif ct in ("opaque", "frozenset"): arg = frozenset(names)
+        elif ct == "dictkeys": arg = dict.fromkeys(names).keys()
+        elif ct == "deque": arg = collections.deque(names)
+        else: arg = {"list": list, "tuple": tuple, "set": set}.get(ct, list)(names)
+        if share is not None: self.shared_args[share] = (arg, self.snap(arg))
+        return arg
+
+    @staticmethod
+    def snap(arg):
+        if arg is None or isinstance(arg, str): return arg
+        if isinstance(arg, (list, tuple)) or type(arg).__name__ == "deque": return [type(arg).__name__] + list(arg)
+        return [type(arg).__name__] + sorted(arg)
+
+    def arg_unchanged(self, api, arg, before):
+        if self.snap(arg) != before:
+            self.violations.append(["aliasing:caller-argument-modified", "%s changed its caller's components object from %r to %r" % (api, before, self.snap(arg))])
 
     def _on_registered(self, ev):
         acts = self.on_registered.pop(ev.name, None)       # once per name
@@ -313,15 +338,11 @@ class Env:
             wid = self.next_id; self.next_id += 1
             deps, ct, body = [fresh(d) for d in a["deps"]], a.get("ctype", "list"), a["body"]
             self.decls.append([wid, "declare:" + ct + ":%d" % len(deps), sorted(set(deps)), self.opi, a.get("cb", "func")])
-            arg = {"list": list, "tuple": tuple, "set": set}.get(ct, list)(deps)
-            if ct == "str": arg = deps[0]
+            arg = self.container(ct, deps, a.get("share"))
+            before = self.snap(arg)
             env = self
             kind = a.get("cb", "func")
-            if ct == "deque":
-                import collections
-                arg = collections.deque(deps)
-            elif ct == "opaque":
-                arg = frozenset(deps)                # not indexable: call_when_ready takes the object itself as one name
+            if ct in ("opaque", "frozenset", "dictkeys"):   # not indexable: call_when_ready takes the object itself as one name
                 self.decls[-1][2] = [OPAQUE]
             def run_cb(*args, **kw):
                 if env.fired(wid): env.in_callback(wid, body)
@@ -337,6 +358,7 @@ class Env:
                         if env.fired(w): env.in_callback(w, body)
                     grp["cb"] = shared_cb
                 core.call_when_ready(grp["cb"], arg)
+                self.arg_unchanged("call_when_ready", arg, before)
                 return
             if kind == "method":
                 class Holder(object):
@@ -394,6 +416,7 @@ class Env:
                 core.call_when_ready(cb, arg, kwargs.get("name"), kwargs.get("args", ()), kwargs.get("kw", {}))
             else:
                 core.call_when_ready(cb, arg, **kwargs)
+            self.arg_unchanged("call_when_ready", arg, before)
             if a.get("mutate_after") and ct in ("list", "set", "deque"):
                 # the caller goes on using its own container: the waiter must keep the components it was declared with
                 if a["mutate_after"] == "clear": arg.clear()
@@ -408,13 +431,15 @@ class Env:
             want = set(s["explicit"]) | set(c for c in map(handler_component, s["attrs"] + s.get("noncallable", [])) if c is not None)
             self.decls.append([wid, "listen", sorted(want), self.opi, "sink"])
             ex, ct = s["explicit"], s.get("ctype", "list")
-            if ct == "none": arg = None
-            elif ct == "str": arg = ex[0]
-            else: arg = {"list": list, "tuple": tuple, "set": set}[ct](ex)
+            arg = self.container(ct, [fresh(x) for x in ex], s.get("share"))
+            before = self.snap(arg)
             kw = {}
             if s.get("listen_args") == "all": kw["listen_args"] = {None: {"priority": 3}, (sorted(want) + ["x"])[0]: {"weak": False}}
             elif s.get("listen_args") == "missing": kw["listen_args"] = {"nobody": {"priority": 3}}
-            core.listen_to_dependencies(sink, arg, attrs=s.get("set_attrs", True), short_attrs=s.get("short_attrs", False), **kw)
+            try:
+                core.listen_to_dependencies(sink, arg, attrs=s.get("set_attrs", True), short_attrs=s.get("short_attrs", False), **kw)
+            finally:
+                self.arg_unchanged("listen_to_dependencies", arg, before)
         elif k == "has":
             name = fresh(a["n"])
             got = core.hasComponent(name)
@@ -436,8 +461,19 @@ class Env:
         elif k == "release":
             i = a["k"]
             if i < len(self.toks):
+                was_out = self.tok_out[i]
                 self.tok_out[i] = 0                  # the core drops it before stage 2 runs; a second release raises
-                self.toks[i]()
+                try:
+                    self.toks[i]()
+                except RuntimeError as e:
+                    depth, tb = 0, e.__traceback__
+                    while tb is not None: depth, tb = depth + 1, tb.tb_next
+                    if was_out and depth <= 2 and "already been executed" in str(e):     # raised by this very call, not by user code it ran
+                        self.violations.append(["deferral:release-of-outstanding-raised", "deferral %d was outstanding, releasing it raised %s" % (i, e)])
+                    raise
+                else:
+                    if not was_out:
+                        self.violations.append(["deferral:second-release-accepted", "deferral %d had been released before; releasing it again did not raise" % i])
         elif k == "quit":
             self.log.append(["_quitCalled"])
             core.quit()
@@ -513,6 +549,8 @@ class Env:
                 internal_out = len(self.core._go_up_deferrals)
             except Exception:
                 pending = internal_out = None
+            for key, (arg, before) in sorted(self.shared_args.items()):
+                self.arg_unchanged("a later call or a fired waiter", arg, before)
             if self.twin is not None:
                 for t in self._twin_check(): self.violations.append(["isolation:two-cores-share-state", t])
         finally:
@@ -929,6 +967,43 @@ class C08(Check):
                 sink = {"attrs": [attr], "explicit": [], "ctype": "none", "met": 0}
                 yield mkcase([LISTEN(0)] + regs, bodies=[[]], sinks=[sink], events=ev)
 
+    def _shared_argument_cases(self):
+        """HARDENING items 2 and 4: ONE components object (set / list / tuple / frozenset / dict keys / deque) handed to several
+        listen_to_dependencies / call_when_ready calls, with sinks whose handlers name further components: every call waits for
+        exactly the names the caller wrote, and the caller's object is the same afterwards"""
+        ev = {"a": ["EvA"], "b": ["EvB"], "c": ["EvA"]}
+        for ct in ("set", "list", "tuple", "frozenset", "dictkeys", "deque"):
+            sinks = [{"attrs": ["_handle_b_EvB"], "explicit": ["a"], "ctype": ct, "met": 0, "share": "s"},        # names b as well
+                     {"attrs": [], "explicit": ["a"], "ctype": ct, "met": 0, "share": "s"},                        # only what is in the set
+                     {"attrs": ["_handle_c_EvA", "_handle_a_EvA"], "explicit": ["a"], "ctype": ct, "met": 1, "share": "s"},
+                     {"attrs": ["_handle_b_EvB"], "explicit": ["a"], "ctype": ct, "met": 0}]                       # unshared control
+            dct = ct if ct in ("set", "list", "tuple", "deque") else "set"
+            D = lambda body, share="s": DECL(["a"], body, ctype=dct, share=share if dct == ct else "d")
+            for regs in ([REG("a"), REG("b"), REG("c")], [REG("b"), REG("a")], [REG("a")], [REG("c"), REG("b"), REG("a")]):
+                for calls in ([LISTEN(0), LISTEN(1)], [LISTEN(1), LISTEN(0), LISTEN(2)], [LISTEN(0), D(0), LISTEN(1), D(0)],
+                              [D(0), LISTEN(2), D(2)], [LISTEN(3), LISTEN(0)]):
+                    yield mkcase(calls + regs, bodies=[[], [REG("c")], [RAISE]], sinks=sinks, events=ev)
+                    yield mkcase(regs[:1] + calls + regs[1:], bodies=[[], [REG("c")], [RAISE]], sinks=sinks, events=ev)
+                    yield mkcase(calls[:1] + regs + calls[1:], bodies=[[], [REG("c")], [RAISE]], sinks=sinks, events=ev)
+
+    def _three_deferral_cases(self):
+        """every order of take/release of THREE deferrals (each taken before it is released; the last release present or missing),
+        with goUp at every position: Up exactly when GoingUp is delivered and nothing is outstanding, every release accepted once"""
+        def orders(rem):                      # rem: per token 0 = not taken, 1 = taken, 2 = released
+            if all(r == 2 for r in rem): yield []; return
+            for i, r in enumerate(rem):
+                if r < 2:
+                    nxt = list(rem); nxt[i] += 1
+                    for tail in orders(nxt): yield [(i, r)] + tail
+        for seq in orders([0, 0, 0]):
+            index, acts = {}, []
+            for i, r in seq:
+                if r == 0: index[i] = len(index); acts.append(GET)
+                else: acts.append(REL(index[i]))
+            for variant in (acts, acts[:-1]):
+                for g in range(0, len(variant) + 1, 1 if variant is acts else 2):
+                    yield mkcase(variant[:g] + [GOUP] + variant[g:] + [DECL(["z"], 0), REG("z")], bodies=[[]])
+
     def _twin_cases(self):
         """item 1: two cores in one process share nothing"""
         picks = list(self._deferral_cases())[::40] + list(self._quit_cases())[::3] + list(self._misc_cases())[4:] + \
@@ -952,7 +1027,7 @@ class C08(Check):
         cases += list(self._falsy_cases())
         cases += list(self._shared_callable_cases())
         for fam in (self._name_cases, self._probe_cases, self._convention_cases, self._one_pass_cases, self._registered_listener_cases,
-                    self._handler_shape_cases, self._twin_cases):
+                    self._handler_shape_cases, self._twin_cases, self._shared_argument_cases, self._three_deferral_cases):
             cases += list(fam())
         return cases
 
@@ -1051,6 +1126,15 @@ class C08(Check):
             if a["a"] == "declare" and a.get("cb", "func") == "func" and not a.get("args") and rng.random() < 0.15:
                 a["with_kw"] = True; a["conv"] = rng.choice(["kw", "positional", None])
             if a["a"] == "register" and a["via"] == "register" and rng.random() < 0.1: a["conv"] = "kw"
+        if rng.random() < 0.12 and len(names) >= 1:      # one container object handed to two or three calls
+            d = rng.sample(names, rng.randint(1, min(2, len(names))))
+            ct = rng.choice(["set", "list", "tuple", "deque"])
+            for _ in range(rng.randint(1, 2)):
+                ops.insert(rng.randint(0, len(ops)), DECL(d, 0, ctype=ct, share="r"))
+            for _ in range(rng.randint(1, 2)):
+                at = sorted(set("_handle_%s_%s" % (rng.choice(names), rng.choice(["EvA", "EvB"])) for _ in range(rng.randint(0, 2))))
+                sinks.append({"attrs": at, "explicit": d, "ctype": ct, "met": 0, "share": "r", "set_attrs": True, "short_attrs": False})
+                ops.insert(rng.randint(0, len(ops)), LISTEN(len(sinks) - 1))
         for _ in range(rng.choice([0, 0, 1, 3])):
             ops.insert(rng.randint(0, len(ops)), {"a": "has", "n": rng.choice(names + ["zz"])})
         falsy = {}
@@ -1102,7 +1186,7 @@ class C08(Check):
             if a["a"] == "declare":
                 if a.get("cb") == "none": r["body"] = nb
                 if a.get("cb") == "builtin_raise": r["body"] = nb + 1
-                if a.get("ctype") == "opaque": r["deps"] = [OPAQUE]
+                if a.get("ctype") in ("opaque", "frozenset", "dictkeys"): r["deps"] = [OPAQUE]
             return r
         return enc({"repaired": True, "fuel": FUEL,
                 "bodies": [keep(b) for b in case["bodies"]] + [[], [{"a": "raise"}]],
